@@ -13,5 +13,5 @@ NEXT Next
 VIEW View
 CONSTRAINT Bound
 INVARIANTS ReloadIsIdentity
-PROPERTIES FreshId LinksOnPost OthersUntouched DeleteExactlyThat ReloadKeeps ListStaysParseable ChildrenStay
+PROPERTIES StaleChangesNothing FreshId LinksOnPost OthersUntouched DeleteExactlyThat ReloadKeeps ListStaysParseable ChildrenStay
 CHECK_DEADLOCK FALSE
